@@ -16,6 +16,7 @@ import (
 	"encoding/hex"
 	"encoding/json"
 	"fmt"
+	"go.starlark.net/starlarkstruct"
 	"math/rand"
 	"os"
 	"os/exec"
@@ -91,7 +92,17 @@ func TestVerifFpChild(t *testing.T) {
 		b, _ := json.Marshal(out)
 		fmt.Printf("\nFPCHILD %s\n", b)
 	}
-	proj, err := Load(dir, &LoadOptions{Events: ev})
+	opts := &LoadOptions{Events: ev}
+	if b, err := os.ReadFile(filepath.Join(dir, ".fpbuiltins")); err == nil {
+		// values the embedding program predeclares (as cmd/dawn predeclares os, sh and host): a
+		// struct and a module whose members depend on the file's text
+		mode := strings.TrimSpace(string(b))
+		opts.Builtins = starlark.StringDict{
+			"cfg":   starlarkstruct.FromStringDict(starlarkstruct.Default, starlark.StringDict{"mode": starlark.String(mode), "level": starlark.MakeInt(1)}),
+			"tools": &starlarkstruct.Module{Name: "tools", Members: starlark.StringDict{"cc": starlark.String("/usr/bin/" + mode), "n": starlark.MakeInt(1)}},
+		}
+	}
+	proj, err := Load(dir, opts)
 	if err != nil {
 		out.Load, out.LoadMsg = "error", err.Error()
 		emit()
